@@ -286,6 +286,21 @@ pub fn family_programs() -> Vec<String> {
         out.push(format!("{}while {}.k do break end\nreturn 1\n", PRELUDE, a));
         out.push(format!("{}do local z = {}.k end\nreturn 1\n", PRELUDE, a));
     }
+    // two objects with metamethods, both plain names: nothing but the operator itself has an effect
+    for op in ["+", "-", "*", "/", "%", "^", "..", "==", "~=", "<", "<=", ">", ">="] {
+        for form in [
+            "local unused = m @ m2\nreturn 1",
+            "local kept, unused = 1, m2 @ m\nreturn kept",
+            "local kept = 1, m @ m2\nreturn kept",
+            "local unused = not (m @ m2)\nreturn 1",
+            "local unused = (m @ m2) and 1\nreturn 1",
+            "local unused = {m @ m2}\nreturn 1",
+            "if m @ m2 then end\nreturn 1",
+            "local function f() local z = m @ m2 end\nreturn f()",
+        ] {
+            out.push(format!("{}local m2 = ET\"n\"\n{}\n", PRELUDE, form.replace('@', op)));
+        }
+    }
     // loops with break, closures capturing loop variables, early returns
     let loops = [
         "local s = 0\nfor i = 1, 3 do\n  if i == 2 then break end\n  s = s + i\nend\nreturn s",
